@@ -163,6 +163,8 @@ func (l *LocationCursor) ReadOutOfOrderMeta(filterOpts *FilterOptions, dst *reco
 			l.pos++
 			continue
 		}
+		// dst is reused for every file: what the previous file left in it has already been folded into rec
+		dst.ResetForReuse()
 		midRec, err = loc.readMeta(filterOpts, dst, nil)
 		if err != nil {
 			return nil, err
